@@ -19,12 +19,17 @@ ROOT = os.path.dirname(os.path.dirname(os.path.abspath(__file__)))
 PY = os.path.join(ROOT, '.venv', 'bin', 'python')
 
 
+TIER = ['quick']
+
+
 def sh_env():
     env = dict(os.environ)
     env['PYTHONPATH'] = ROOT + ((':' + os.environ['VERIF_REPO']) if os.environ.get('VERIF_REPO') else '')
     env['PYTHONHASHSEED'] = '0'
     env['PYTHONDONTWRITEBYTECODE'] = '1'
     env.setdefault('XLCALCULATOR_VERIF', '1')
+    if TIER[0] == 'thorough':
+        env['KT_SECOND_SOLVER'] = '1'      # KT obligations are re-decided by the system z3 binary
     return env
 
 
@@ -156,6 +161,7 @@ def main():
     ap.add_argument('--no-evidence', action='store_true')
     a = ap.parse_args()
     prop = a.prop.upper()
+    TIER[0] = a.tier
     seed = int(os.environ.get('VERIF_SEED', '0') or 0)
     t0 = time.time()
     sys.path.insert(0, ROOT)
@@ -291,6 +297,9 @@ def write_evidence(prop, tier, seed, mod, names, obs, results, viol, inconc, kf_
             'families': fams,
             'functions_encoded': sorted(functions),
             'stubs': sorted(stubs),
+            'second_solver_agreements': sum(int((results[n].get('second_solver') or {}).get('agree', 0)) for n in names),
+            'second_solver_disagreements': sum(int((results[n].get('second_solver') or {}).get('disagree', 0)) for n in names),
+            'translator_validation_cases': sum(int(results[n].get('translator_validation_cases') or 0) for n in names),
             'twins_run': len(twins), 'twins_violated': sum(1 for r in twins if r['twin'] == 'violated'),
             'known_findings_printed': kf_lines,
             'samples': samples,
